@@ -315,6 +315,9 @@ func FLNest() []string {
 		"c.s2 -> a",
 		"s.p: {grid-rows: 1; u; v}",
 		"c.s2.grp: {p -> q}",
+		// a group declared BEFORE a later actor (d2sequence re-sorts the children as actors first, then groups)
+		"c.s3: {shape: sequence_diagram; p; q; grp: {p -> q}; r; q -> r}",
+		"shape: sequence_diagram; p; q; grp: {p -> q}; r; q -> r",
 		"n: {near: top-center; x -> y}",
 		"n: {near: bottom-left; grid-rows: 1; x; y}",
 		"m: {near: top-right; shape: sequence_diagram; p -> q}",
@@ -336,6 +339,7 @@ func FLNestCore() []string {
 		"g.sq: {shape: sequence_diagram; p -> q}",
 		"g.sq -> g.x",
 		"c.s2 -> a",
+		"c.s3: {shape: sequence_diagram; p; q; grp: {p -> q}; r; q -> r}",
 		"n: {near: top-center; x -> y}",
 		"n: {near: bottom-left; grid-rows: 1; x; y}",
 		"m: {near: top-right; shape: sequence_diagram; p -> q}",
@@ -346,7 +350,7 @@ func init() {
 	eng.Register(&eng.Check{
 		ID: "C18", Level: "exploration", HangBound: 900 * time.Second,
 		QuickBudget: 240 * time.Second, ThoroughBudget: 24 * time.Minute,
-		Rule: "every program of <=k statements over the nesting fragment FLnest (grids, container grid cells, sequence diagrams in containers and grids, grid inside a sequence actor, constant-near groups that are containers/grids/sequence diagrams, connections crossing diagram boundaries, a layer) and over FLcore, laid out through d2lib.Compile with dagre and ELK; the structure (object ids in order, parent ids, children order, connections with endpoints/arrows/index/label in order) of every board after d2compiler.Compile is compared with the structure after layout; non-trivial = at least one object or connection sits inside a special (grid/sequence/near) diagram",
+		Rule: "every program of <=k statements over the nesting fragment FLnest (grids, container grid cells, sequence diagrams in containers and grids and as the whole board, a sequence group declared before a later actor, grid inside a sequence actor, constant-near groups that are containers/grids/sequence diagrams, connections crossing diagram boundaries, a layer) and over FLcore, laid out through d2lib.Compile with dagre and ELK; the structure (object ids in order, parent ids, children order, connections with endpoints/arrows/index/label in order) of every board after d2compiler.Compile is compared with the structure after layout; non-trivial = at least one object or connection sits inside a special (grid/sequence/near) diagram",
 		Assumptions: []string{
 			"compilation is deterministic (C08), so compiling twice gives the pre-layout structure without a hook",
 			"lifeline connections that d2sequence appends for drawing (destination is a synthetic lifeline-end object) are not counted as added connections",
